@@ -23,7 +23,7 @@ ASSUME Encode(Const(32, 0), 102) = [j \in 1..24 |-> IF j = 24 THEN 102 ELSE 0]
 \* "zoo" x23 "vote"
 ASSUME Encode(Const(32, 255), 175) = [j \in 1..24 |-> IF j = 24 THEN 1967 ELSE 2047]
 
-VARIABLES ci, hb
+VARIABLE hb   \* ci (the index of the entropy pattern) is declared in Bip39Gen
 \* hb = NoH: the entropy is chosen, the hash byte not yet (keeps the state graph wide, so all workers are used)
 NoH == 256
 MCInit == ci \in 1..NCases /\ hb = NoH
